@@ -79,12 +79,10 @@ func (f frontLn) Addr() net.Addr { return f.a }
 type frontSrv struct{ Listener frontLn }
 
 func viaListener(h http.Handler) *frontSrv {
-	ln, err := hx.Listen("tcp", "127.0.0.1:0")
+	addr, err := net.ResolveTCPAddr("tcp", hx.FreeAddr())
 	if err != nil {
 		panic(err)
 	}
-	addr := ln.Addr()
-	ln.Close()
 	go func() {
 		if err := proxy.ListenAndServeHTTP(config.Listen{Addr: addr.String(), Proto: "http"}, h, nil); err != nil {
 			fmt.Println("VERIF-INCONCLUSIVE front listener:", err)
